@@ -20,6 +20,8 @@
 (*                                by its spine (ValueCodec!Spine): sp/in   *)
 (*                                the value written, rsp/rin the object    *)
 (*                                read back, walked down the same way      *)
+(*   RTd  (same fields)           the same, judged level by level (depths  *)
+(*                                beyond what RTs can afford)              *)
 (* A panic is logged as "Panic", for which there is no action.             *)
 (* Values are JSON {"t": code, "v": payload} in the representation of      *)
 (* Value.tla (maps: arrays of [key, value] pairs in insertion order).      *)
@@ -77,10 +79,24 @@ TraceRTs == /\ Step("RTs")
                       /\ e.avail = Len(wire') - (rpos' - 1)
                       /\ e.again = again'[1]
 
+\* a deep value judged level by level (ValueCodec!SpineEnc ...: the depth TLC's recursive
+\* operators can afford is a few hundred): the bytes are the reference encoding, the object read
+\* back is the value written, nothing is left in the input, the re-encoding is the same bytes.
+\* The stream variables are left empty: the verdict is in the step.
+TraceRTd == /\ Step("RTd")
+            /\ LET e == Trace[l] IN
+                 /\ SpineIsValue(e.sp, e.in)
+                 /\ SpineOK(e.rsp)
+                 /\ e.out = SpineEnc(e.sp, e.in)
+                 /\ SameSpine(e.rsp, e.rin, e.sp, e.in)
+                 /\ e.avail = 0
+                 /\ e.again = e.out
+            /\ vals' = <<>> /\ encs' = <<>> /\ wire' = <<>> /\ rpos' = 0 /\ backs' = <<>> /\ again' = <<>>
+
 \* every invariant of ValueCodec that is affordable per step is re-evaluated after each event
 InvAll == ReadBack /\ ExactConsumption /\ AllConsumed /\ WireOK /\ ReEncodeIdentical /\ TagFirst
 
-TraceNextBase == TraceReset \/ TraceW \/ TraceOpen \/ TraceR \/ TraceReEnc \/ TraceEnd \/ TraceRT \/ TraceRTs
+TraceNextBase == TraceReset \/ TraceW \/ TraceOpen \/ TraceR \/ TraceReEnc \/ TraceEnd \/ TraceRT \/ TraceRTs \/ TraceRTd
 TraceNext == TraceNextBase /\ InvAll'
 
 TraceSpec == TraceInit /\ [][TraceNext]_tvars
